@@ -377,3 +377,42 @@ V('c15-nsec-known-answer', 'C15', 'C15.ESCAPE', INF,
 # twins
 V('c15-twin-handler-tuple', 'C15', 'C15.ESCAPE', CORE,
   "        except NamePartTooLongException:\n            # A name learned", "        except (NamePartTooLongException, NonUniqueNameException):\n            # A name learned", expect='silent')
+
+NM = '_utils/name.py'
+# ---------------------------------------------------------------- C19
+V('c19-empty-check-removed', 'C19', 'C19.TOTAL', NM,
+  "        if not test_service_name:\n            raise BadTypeInNameException(\"Service name (%s) must not be empty\" % service_name)\n\n", "", names=['test_service_name[0]'])
+V('c19-pop-unguarded', 'C19', 'C19.TOTAL', NM,
+  "    if remaining and remaining[-1] == '_sub':\n        remaining.pop()", "    if remaining and remaining[-1] == '_sub':\n        remaining.pop()\n        remaining.pop()", names=['remaining.pop()'])
+V('c19-valueerror', 'C19', 'C19.TOTAL', NM,
+  "    if len(type_) > 256:", "    if not type_:\n        raise ValueError('empty')\n    if len(type_) > 256:", names=['ValueError'])
+V('c19-index-before-guard', 'C19', 'C19.TOTAL', NM,
+  "        if not service_name:\n            raise BadTypeInNameException(\"No Service name found\")\n\n", "", names=['service_name[0]'])
+V('c19-dollar-anchor', 'C19', 'C19.REGEX', 'const.py',
+  "_HAS_ONLY_A_TO_Z_NUM_HYPHEN = re.compile(r'^[A-Za-z0-9\\-]+\\Z')", "_HAS_ONLY_A_TO_Z_NUM_HYPHEN = re.compile(r'^[A-Za-z0-9\\-]+$')", names=['_HAS_ONLY_A_TO_Z_NUM_HYPHEN'])
+V('c19-dot-in-class', 'C19', 'C19.REGEX', 'const.py',
+  "_HAS_ONLY_A_TO_Z_NUM_HYPHEN = re.compile(r'^[A-Za-z0-9\\-]+\\Z')", "_HAS_ONLY_A_TO_Z_NUM_HYPHEN = re.compile(r'^[A-Za-z0-9\\-.]+\\Z')", names=['character set'])
+V('c19-no-start-anchor', 'C19', 'C19.REGEX', 'const.py',
+  "_HAS_ONLY_A_TO_Z_NUM_HYPHEN_UNDERSCORE = re.compile(r'^[A-Za-z0-9\\-\\_]+\\Z')", "_HAS_ONLY_A_TO_Z_NUM_HYPHEN_UNDERSCORE = re.compile(r'[A-Za-z0-9\\-\\_]+\\Z')")
+V('c19-control-set-short', 'C19', 'C19.REGEX', 'const.py',
+  "_HAS_ASCII_CONTROL_CHARS = re.compile(r'[\\x00-\\x1f\\x7f]')", "_HAS_ASCII_CONTROL_CHARS = re.compile(r'[\\x00-\\x1f]')")
+V('c19-limit-16', 'C19', 'C19.CONST', NM,
+  "        if strict and len(test_service_name) > 15:", "        if strict and len(test_service_name) > 16:")
+V('c19-limit-strict-dropped', 'C19', 'C19.CONST', NM,
+  "        if strict and len(test_service_name) > 15:", "        if len(test_service_name) > 15:")
+V('c19-label-64', 'C19', 'C19.CONST', NM, "        if length > 63:", "        if length >= 65:")
+V('c19-label-chars', 'C19', 'C19.CONST', NM, "        length = len(remaining[0].encode('utf-8'))", "        length = len(remaining[0])")
+V('c19-whole-255', 'C19', 'C19.CONST', NM, "    if len(type_) > 256:", "    if len(type_) > 512:")
+V('c19-txt-two-byte-len', 'C19', 'C19.TXT', INF,
+  "            result = b''.join((result, bytes((len(item),)), item))", "            result = b''.join((result, len(item).to_bytes(2, 'big'), item))")
+V('c19-txt-last-wins', 'C19', 'C19.TXT', INF,
+  "            if key not in properties:\n                properties[key] = key_sep_value[2] or None", "            properties[key] = key_sep_value[2] or None")
+V('c19-txt-skip-wrong', 'C19', 'C19.TXT', INF,
+  "            index += length\n\n        self._properties = properties", "            index += length + 1\n\n        self._properties = properties")
+# twins
+V('c19-twin-fullmatch', 'C19', 'C19.REGEX', NM,
+  "        if not allowed_characters_re.search(test_service_name):", "        if not allowed_characters_re.fullmatch(test_service_name):", expect='silent')
+V('c19-twin-empty-len', 'C19', 'C19.TOTAL', NM,
+  "        if not test_service_name:\n            raise BadTypeInNameException(\"Service name (%s) must not be empty\" % service_name)",
+  "        if len(test_service_name) == 0:\n            raise BadTypeInNameException(\"Service name (%s) must not be empty\" % service_name)", expect='silent')
+V('c19-twin-limit-ge', 'C19', 'C19.CONST', NM, "        if length > 63:", "        if length >= 64:", expect='silent')
